@@ -17,3 +17,21 @@ package jrpc2
 
 //@ func (Error).Exists props=C07
 //@   ensures result == (e.Code != 0)
+
+// C08: the cached head. Announced(n, h): ghost set of (number, hash) pairs the
+// source announced (everything passed to update). A hit is served at most
+// maxreads times in a row, is never an error state, and is the stored pair.
+//@ func (*NumHash).update props=C08
+//@   requires len(h) == 0 || base(h) != base(nh.Hash)
+//@   ensures [keep] n <= old(nh.Num) ==> nh.Num == old(nh.Num) && nh.Hash == old(nh.Hash) && nh.nreads == old(nh.nreads)
+//@   ensures [newer] n > old(nh.Num) ==> nh.Num == n && nh.nreads == 0 && len(nh.Hash) == len(h) && (forall k int :: 0 <= k && k < len(h) ==> nh.Hash[k] == old(h[k]))
+//@   ensures [frame] nh.maxreads == old(nh.maxreads) && nh.err == old(nh.err)
+
+//@ func (*NumHash).get props=C08
+//@   ensures [hit] result2 ==> old(nh.err) == nil && n != 0 && uint64(old(nh.Num)) >= n && old(nh.nreads) < old(nh.maxreads) && nh.nreads == old(nh.nreads) + 1 && result0 == uint64(old(nh.Num))
+//@   ensures [hit-hash] result2 ==> len(result1) == 32 && (forall k int :: 0 <= k && k < 32 && k < len(old(nh.Hash)) ==> result1[k] == old(nh.Hash[k]))
+//@   ensures [error-not-served] old(nh.err) != nil ==> !result2 && nh.err == nil
+//@   ensures [expired] !result2 && old(nh.err) == nil && n != 0 && uint64(old(nh.Num)) >= n ==> nh.nreads == 0 && nh.Num == 0
+
+//@ func (*NumHash).error props=C08
+//@   ensures nh.nreads == 0 && nh.err == err && nh.Num == old(nh.Num)
